@@ -508,14 +508,19 @@ func main() {
 	for _, h := range [][]byte{{0x4e, 0xff, 0xff, 0xff, 0xff}, {0x4e, 0xff, 0xff, 0xff, 0x7f, 1, 2}, {0x4e, 0, 0, 0, 0x80}, {0x4d, 0xff, 0xff, 1}, {0x4c, 0xff}, {0x4e, 0, 0, 0}, {0x4d, 0}, {0x4c}, {0x4b}} {
 		truncatedPush([]byte{0x51}, h)
 	}
-	// each length byte of PUSHDATA2/4 on its own, followed by more data than any reading of it needs
-	c.PerShard = 2
-	for _, h := range [][]byte{{0x4e, 0, 0, 0, 1}, {0x4e, 0, 0, 1, 0}, {0x4e, 0, 1, 0, 0}, {0x4e, 1, 0, 0, 0}, {0x4d, 0, 1}, {0x4d, 1, 0}} {
-		fill := make([]byte, 70000)
+	// each length byte of PUSHDATA2/4 on its own, followed by more data than that byte's weight
+	// (the 2^24 byte can only be seen to be "more than is there")
+	c.PerShard = 1
+	for _, h := range []struct {
+		hdr []byte
+		n   int
+	}{{[]byte{0x4e, 0, 0, 0, 1}, 65539}, {[]byte{0x4e, 0, 0, 1, 0}, 65539}, {[]byte{0x4e, 0, 1, 0, 0}, 600}, {[]byte{0x4e, 1, 0, 0, 0}, 600},
+		{[]byte{0x4d, 0, 1}, 600}, {[]byte{0x4d, 1, 0}, 600}} {
+		fill := make([]byte, h.n)
 		for i := range fill {
-			fill[i] = 0x4b // whatever the reading of the length, what follows tokenises into few 76-byte pushes
+			fill[i] = 0x61
 		}
-		scriptCase("length-byte-weights", append(append([]byte{}, h...), fill...))
+		scriptCase("length-byte-weights", append(append([]byte{}, h.hdr...), fill...))
 	}
 	c.PerShard = 8
 	// zero-length pushes in every form
